@@ -306,7 +306,7 @@ CHECKS["C20"] = {
         J("close-join", "c20", "TestCloseJoinsItsGoroutines", 300, 10000, 4, race=True, env={"VERIF_REC_LOGGER": "1"}),
         J("losfn-owned", "c20", "TestLoadOrStoreFnOwnedSchedule", 1500, 150000, 4, race=True),
         J("map-free", "c20", "TestMapFreeSchedule", 800, 100000, 4, race=True),
-        J("sets-free", "c20", "TestSetsFreeSchedule", 600, 50000, 2, race=True),
+        J("sets-free", "c20", "TestSetsFreeSchedule", 1500, 50000, 2, race=True),
         J("sets-sequential", "c20", "TestSetsSequentialModel", 400, 20000, 2, race=True),
     ],
     "assumptions": [
